@@ -46,7 +46,8 @@ func (a *Attributes) Marshal() (string, error) {
 // It guarantees the output fields are all valid in format when error is nil.
 func Unmarshal(attrsStr string) (*Attributes, error) {
 	attrs := &Attributes{}
-	if err := json.Unmarshal([]byte(attrsStr), &attrs); err != nil {
+	// Decode into the allocated value: with a pointer to the pointer, a JSON null would set attrs to nil.
+	if err := json.Unmarshal([]byte(attrsStr), attrs); err != nil {
 		// TODO: cleanup UnmarshalLegacy once we upgrade the gensign IFVer to 7.
 		return UnmarshalLegacy(attrsStr)
 	}
